@@ -272,7 +272,7 @@ def protocols(draw: Any) -> dict[str, Any]:
     if n_parties == 3 and draw(st.integers(0, 2)) == 0:
         # messages between the two external parties (invisible to A: sliced away at load time), often adjacent
         invisible = True
-    if n_parties == 3 and draw(st.integers(0, 2)) == 0:
+    if n_parties == 3 and draw(st.integers(0, 1)) == 0:
         # the same sender sends the same message type to two different recipients (named class)
         t = draw(st.sampled_from(types))
         msgs = [m for m in msgs if m[2] != t] + [("A", "B", t), ("A", "C", t)]
@@ -486,7 +486,7 @@ def check_case(case: dict[str, Any], ctx: Any = None) -> list[str]:
 
 
 def run_shard(ctx: Any) -> None:
-    n = 60 if ctx.tier == "quick" else 1500
+    n = 100 if ctx.tier == "quick" else 1500
     depth = 5 if ctx.tier == "quick" else 7
 
     @given(protocols())
